@@ -5,6 +5,7 @@ import (
 	"bytes"
 	"fmt"
 	"net"
+	"net/textproto"
 	"regexp"
 	"strconv"
 	"time"
@@ -154,11 +155,12 @@ func (c *SMTPClient) Cmd(line string) (Reply, error) {
 
 // DotStuff encodes body for the DATA phase the way a conforming client does: a dot is
 // doubled at every line start (the beginning, or the byte after any LF) and the data is
-// terminated by CRLF "." CRLF; when body does not end with LF, the CRLF of the terminator
-// becomes part of the message. Bare CR and bare LF are transmitted as such.
+// terminated by CRLF "." CRLF; unless body already ends with CRLF, the CRLF of the terminator
+// becomes part of the message (RFC 5321 4.1.1.4). Bare CR and bare LF inside the body are
+// transmitted as such.
 func DotStuff(body []byte) (wire []byte, transmitted []byte) {
 	transmitted = body
-	if len(body) == 0 || body[len(body)-1] != '\n' {
+	if !bytes.HasSuffix(body, []byte("\r\n")) {
 		transmitted = append(append([]byte{}, body...), '\r', '\n')
 	}
 	var b bytes.Buffer
@@ -172,6 +174,16 @@ func DotStuff(body []byte) (wire []byte, transmitted []byte) {
 	}
 	b.WriteString(".\r\n")
 	return b.Bytes(), transmitted
+}
+
+// StdlibInverts reports whether Go's textproto dot-reader (which inbucket uses for DATA)
+// decodes wire back to transmitted up to line-ending normalisation. It does not when an
+// empty line terminated by a bare LF is directly followed by a dot: the reader does not
+// treat the byte after such an LF as a line start. Used only to classify cases that fall
+// under the recorded finding C02:dot-after-bare-lf-empty-line, never as an oracle.
+func StdlibInverts(wire, transmitted []byte) bool {
+	got, err := textproto.NewReader(bufio.NewReader(bytes.NewReader(wire))).ReadDotBytes()
+	return err == nil && bytes.Equal(Canon(got), Canon(transmitted))
 }
 
 // Data sends body dot-stuffed with the terminator and reads the reply.
